@@ -133,8 +133,11 @@ def write_evidence(ctx, level='model_checking'):
         'coverage': cov, 'assumptions': ctx.assumptions,
         'wall_s': round(time.time() - ctx.t0, 2), 'violations': len(ctx.violations),
     }
-    os.makedirs(os.path.join(VERIF, 'evidence'), exist_ok=True)
-    with open(os.path.join(VERIF, 'evidence', '%s.json' % ctx.pid), 'w') as fh:
+    # evidence committed under /verif/evidence always describes /repo itself; runs against a scratch copy
+    # (mutation experiments, VERIF_REPO=...) write theirs next to the replay files instead
+    evdir = os.path.join(VERIF, 'evidence') if os.path.realpath(repo.REPO) == '/repo' else os.path.join(VERIF, 'replay', 'evidence-other-tree')
+    os.makedirs(evdir, exist_ok=True)
+    with open(os.path.join(evdir, '%s.json' % ctx.pid), 'w') as fh:
         json.dump(ev, fh, indent=1, default=str)
 
 
